@@ -324,6 +324,19 @@ def rule_d(repo, res):
             rooted = "output_dir" in names
             named = "test_case.name" in names or d == "makedirs" and names == {"output_dir"}
             res.check(rooted and named and not extra, "C24.d", "%s:%s(%s)" % (fname, d, short(patharg, 40)), where, "the path `%s` is built from %s: files must live under the unit's output_dir and carry the test case's name, or two units of work can write the same file" % (short(patharg, 60), sorted(names)), by="output_dir + test_case.name%s" % (" + " + "/".join(lits) if lits else ""))
+    # the makedirs the units of work call is os.makedirs itself (atomic with respect to a concurrent creator), the
+    # test-then-create fallback being reachable only where os.makedirs has no exist_ok (Python 2)
+    pm = repo.mod("py2x_compat")
+    alias_try = None
+    for s_ in pm.tree.body:
+        if isinstance(s_, ast.Try) and any(isinstance(a, ast.Assign) and dotted(a.targets[0]) == "makedirs" and dotted(a.value) == "os.makedirs" for a in s_.body):
+            alias_try = s_
+    defs_elsewhere = [d for d in ast.walk(pm.tree) if isinstance(d, ast.FunctionDef) and d.name == "makedirs" and not (alias_try is not None and any(d in h.body and dotted(h.type) == "TypeError" for h in alias_try.handlers))]
+    other_binds = [a for a in ast.walk(pm.tree) if isinstance(a, ast.Assign) and dotted(a.targets[0]) == "makedirs" and dotted(a.value) != "os.makedirs"]
+    probe = alias_try is not None and any(isinstance(x, ast.Expr) and isinstance(x.value, ast.Call) and dotted(x.value.func) == "os.makedirs" and any(k.arg == "exist_ok" for k in x.value.keywords) for x in alias_try.body)
+    plain_alias = not defs_elsewhere and not other_binds and not any(isinstance(d, ast.FunctionDef) and d.name == "makedirs" for d in ast.walk(pm.tree)) and (any(isinstance(a, ast.Assign) and dotted(a.targets[0]) == "makedirs" and dotted(a.value) == "os.makedirs" for a in pm.tree.body) or any(isinstance(i_, ast.ImportFrom) and i_.module == "os" and any(al.name == "makedirs" and al.asname in (None, "makedirs") for al in i_.names) for i_ in pm.tree.body))
+    res.check(plain_alias or (alias_try is not None and probe and not defs_elsewhere and not other_binds), "C24.d", "makedirs:is-os.makedirs", pm.rel, "py2x_compat.makedirs must be os.makedirs itself wherever os.makedirs accepts exist_ok (bound in a try whose probe call passes exist_ok; the isdir-then-create fallback only in its `except TypeError`): a test-then-create helper lets two workers of one configuration both find the shared directory missing, and the loser dies with FileExistsError, so the files produced depend on the schedule", by="makedirs = os.makedirs after an exist_ok probe; fallback only under except TypeError")
+    n += 1
     # no other file-creating calls in the module's unit-of-work functions
     res.info["write_sites"] = n
     # index starts at 0 and is incremented once per picture (decoder model answers)
